@@ -15,12 +15,14 @@ package amf0
 import (
 	"context"
 	"fmt"
+	"io/ioutil"
 	"math/big"
 	"os"
 	"os/exec"
 	"runtime"
 	"runtime/debug"
 	"sort"
+	"strconv"
 	"strings"
 	"syscall"
 	"testing"
@@ -81,10 +83,43 @@ func vC07StackTop() string {
 	return strings.Join(keep, " < ")
 }
 
-// run one decoder call under recover and a watchdog
+// state and CPU time (utime+stime) of one OS thread of this process, from /proc
+func vC07ThreadStat(tid int) (state byte, cpu time.Duration, ok bool) {
+	data, err := ioutil.ReadFile(fmt.Sprintf("/proc/self/task/%d/stat", tid))
+	if err != nil {
+		return 0, 0, false
+	}
+	t := string(data)
+	i := strings.LastIndex(t, ")")
+	if i < 0 {
+		return 0, 0, false
+	}
+	f := strings.Fields(t[i+1:])
+	if len(f) < 13 {
+		return 0, 0, false
+	}
+	ut, e1 := strconv.ParseInt(f[11], 10, 64)
+	st, e2 := strconv.ParseInt(f[12], 10, 64)
+	if e1 != nil || e2 != nil || len(f[0]) == 0 {
+		return 0, 0, false
+	}
+	return f[0][0], time.Duration(ut+st) * 10 * time.Millisecond, true
+}
+
+// run one decoder call under recover and a watchdog.  A STALL verdict needs evidence that machine
+// load alone cannot produce: the call runs on its own OS thread, and after the soft wall limit
+// the watchdog looks at that thread: (a) busy stall = the thread has consumed [limit] of CPU time
+// without returning; (b) blocked stall = the thread is asleep (not runnable) and has consumed no
+// CPU for 3 s of consecutive samples -- a starved thread stays runnable, a call waiting for a lock
+// that is never released does not.  If neither shows within 120 s of wall time the call is
+// abandoned as inconclusive (class 4: no failure is raised).
 func vC07Exec(d *vC07Dec, b []byte, limit time.Duration) vC07Out {
 	done := make(chan vC07Out, 1)
+	tidc := make(chan int, 1)
 	go func() {
+		runtime.LockOSThread()
+		defer runtime.UnlockOSThread()
+		tidc <- syscall.Gettid()
 		defer func() {
 			if r := recover(); r != nil {
 				done <- vC07Out{2, fmt.Sprint(r) + " @ " + vC07StackTop()}
@@ -96,13 +131,46 @@ func vC07Exec(d *vC07Dec, b []byte, limit time.Duration) vC07Out {
 			done <- vC07Out{0, ""}
 		}
 	}()
+	tid := <-tidc
 	tm := time.NewTimer(limit)
-	defer tm.Stop()
 	select {
 	case o := <-done:
+		tm.Stop()
 		return o
 	case <-tm.C:
-		return vC07Out{3, fmt.Sprintf("no return within %v", limit)}
+	}
+	start := time.Now()
+	asleep := 0
+	var lastCPU time.Duration = -1
+	for {
+		select {
+		case o := <-done:
+			return o
+		case <-time.After(500 * time.Millisecond):
+		}
+		st, cpu, ok := vC07ThreadStat(tid)
+		if !ok {
+			// no /proc: fall back to a generous wall bound
+			if time.Since(start) > 55*time.Second {
+				return vC07Out{3, fmt.Sprintf("no return within %v of wall time (thread state unavailable)", limit+55*time.Second)}
+			}
+			continue
+		}
+		if cpu >= limit {
+			return vC07Out{3, fmt.Sprintf("no return after %v of CPU time on its own thread (busy)", cpu)}
+		}
+		if st != 'R' && cpu == lastCPU {
+			asleep++
+		} else {
+			asleep = 0
+		}
+		lastCPU = cpu
+		if asleep >= 6 {
+			return vC07Out{3, fmt.Sprintf("no return within %v; the calling thread is blocked (state %c, %v of CPU time, no progress for 3 s)", limit+time.Since(start).Round(time.Second), st, cpu)}
+		}
+		if time.Since(start) > 120*time.Second {
+			return vC07Out{4, "inconclusive: runnable but starved"}
+		}
 	}
 }
 
@@ -386,8 +454,13 @@ func (dr *vC07Driver) runDec(d *vC07Dec, b []byte, kind string) {
 		return
 	}
 	o := vC07Exec(d, b, dr.limit)
-	if o.class == 3 {
+	if o.class >= 3 {
 		dr.stalled[d.name] = true
+	}
+	if o.class == 4 {
+		// the machine did not give the call enough CPU to decide: not a failure, not a case
+		k.count("watchdog-inconclusive", d.name)
+		return
 	}
 	obs := vOk()
 	if o.class == 2 {
@@ -554,7 +627,13 @@ func (dr *vC07Driver) runFam(f *vC07Fam) {
 			b = b[:n]
 		}
 		// guarded probe first: the measured calls below run without a watchdog
-		if o := vC07Exec(d, append([]byte{}, b...), 30*time.Second); o.class >= 2 {
+		o := vC07Exec(d, append([]byte{}, b...), 30*time.Second)
+		if o.class == 4 {
+			dr.stalled[d.name] = true
+			k.count("watchdog-inconclusive", d.name)
+			return
+		}
+		if o.class >= 2 {
 			dr.stalled[d.name] = o.class == 3
 			idx := k.record(vL(vZ(3), vS(f.name), vI(n)), vOk(), true)
 			k.fail(idx, len(b), []string{"never-panics", "watchdog"}[o.class-2], "", fmt.Sprintf("%s on family %s at %d bytes: %s", d.name, f.name, len(b), o.msg))
@@ -581,21 +660,40 @@ func (dr *vC07Driver) runFam(f *vC07Fam) {
 	// three consecutive doublings that are each at least 3x and together at least 36x (geometric mean
 	// 3.3; DESIGN's 3.5 each is kept as the nominal figure, the product form keeps the decision from
 	// hinging on one noisy point: linear code gives 8x over three doublings, n log n about 9x,
-	// quadratic code 64x)
-	for i := 3; i < len(ts); i++ {
-		if ts[i-3] <= 0 || ts[i] < 250*time.Millisecond {
-			continue
-		}
-		ok := true
-		for j := i - 3; j < i; j++ {
-			if ts[j] <= 0 || float64(ts[j+1])/float64(ts[j]) < 3.0 {
-				ok = false
+	// quadratic code 64x).  Before it is reported the four sizes are measured AGAIN and the minimum of
+	// old and new is judged: thread CPU time is only ever inflated by a loaded machine.
+	crit := func() int {
+		for i := 3; i < len(ts); i++ {
+			if ts[i-3] <= 0 || ts[i] < 250*time.Millisecond {
+				continue
+			}
+			ok := true
+			for j := i - 3; j < i; j++ {
+				if ts[j] <= 0 || float64(ts[j+1])/float64(ts[j]) < 3.0 {
+					ok = false
+				}
+			}
+			if ok && float64(ts[i])/float64(ts[i-3]) >= 36 {
+				return i
 			}
 		}
-		if ok && float64(ts[i])/float64(ts[i-3]) >= 36 {
-			k.fail(idx, 1, "linear-time", f.key, fmt.Sprintf("T grows >= 3x on each of three consecutive doublings and >= 36x over them (%s -> %s: %.1fx), T >= 250 ms: %s",
-				vC07SizeName(sizes[i-3]), vC07SizeName(sizes[i]), float64(ts[i])/float64(ts[i-3]), detail))
-			break
+		return -1
+	}
+	if i := crit(); i >= 0 {
+		for j := i - 3; j <= i; j++ {
+			if t := vC07Time(d, inputs[j], 2); t < ts[j] {
+				ts[j] = t
+			}
+		}
+		if i2 := crit(); i2 >= 0 {
+			confirmed := f.dec + " on " + f.name + ":"
+			for j := range sizes {
+				confirmed += fmt.Sprintf(" %s %v,", vC07SizeName(sizes[j]), ts[j])
+			}
+			k.fail(idx, 1, "linear-time", f.key, fmt.Sprintf("T grows >= 3x on each of three consecutive doublings and >= 36x over them (%s -> %s: %.1fx), T >= 250 ms, confirmed by a second measurement: %s",
+				vC07SizeName(sizes[i2-3]), vC07SizeName(sizes[i2]), float64(ts[i2])/float64(ts[i2-3]), strings.TrimRight(confirmed, ",")))
+		} else {
+			k.count("timing-not-confirmed", f.name)
 		}
 	}
 }
@@ -676,16 +774,36 @@ func (dr *vC07Driver) costBand(f *vC07Fam, idx int, sizes []int, inputs [][]byte
 	// the tie of the cost theorems to the code: if the time per model step grows 3x per doubling on
 	// three consecutive doublings (and the time is not noise), the code no longer performs the
 	// steps the model counts -- a correspondence break of the cost model
-	run := 0
-	for i := 0; i+1 < len(rs); i++ {
-		if rs[i] > 0 && rs[i+1]/rs[i] >= 3 {
-			run++
-		} else {
-			run = 0
+	tie := func() int {
+		run := 0
+		for i := 0; i+1 < len(rs); i++ {
+			if rs[i] > 0 && rs[i+1]/rs[i] >= 3 {
+				run++
+			} else {
+				run = 0
+			}
+			if run >= 3 && ts[i+1] >= 250*time.Millisecond {
+				return i + 1
+			}
 		}
-		if run >= 3 && ts[i+1] >= 250*time.Millisecond {
-			k.fail(idx, 1, "cost-model-tie", "", "CPU time per step of the cost model (c07_cost_linear_*) grows >= 3x per doubling on three consecutive doublings: "+line)
-			break
+		return -1
+	}
+	if i := tie(); i >= 0 {
+		// confirm with a second measurement (minimum of old and new) before reporting
+		if d := dr.dec(f.dec); d != nil {
+			for j := i - 3; j <= i; j++ {
+				if t := vC07Time(d, inputs[j], 2); t < ts[j] {
+					ts[j] = t
+				}
+				if steps[j] > 0 {
+					rs[j] = float64(ts[j].Nanoseconds()) / steps[j]
+				}
+			}
+		}
+		if tie() >= 0 {
+			k.fail(idx, 1, "cost-model-tie", "", "CPU time per step of the cost model (c07_cost_linear_*) grows >= 3x per doubling on three consecutive doublings (confirmed by a second measurement): "+line)
+		} else {
+			k.count("timing-not-confirmed", f.name+" (cost model)")
 		}
 	}
 }
@@ -758,7 +876,7 @@ func vC07FuzzTarget(f *testing.F, test func(*testing.T)) {
 		if len(data) > vC07Max {
 			data = data[:vC07Max]
 		}
-		if o := vC07Exec(d, data, 60*time.Second); o.class >= 2 {
+		if o := vC07Exec(d, data, 60*time.Second); o.class == 2 || o.class == 3 {
 			t.Fatalf("%s: %s on %x", d.name, o.msg, data)
 		}
 	})
